@@ -53,7 +53,8 @@ fn pslug(p: &Box<dyn std::any::Any + Send>) -> String {
 }
 
 /// everything the loader produced for a byte string, or the error kind (run in a child process)
-pub fn load_summary(bytes: &[u8]) -> String {
+pub fn load_summary(bytes: &[u8]) -> String { load_summary2(bytes, false) }
+pub fn load_summary2(bytes: &[u8], two_phase: bool) -> String {
   let b = bytes.to_vec();
   let r = std::panic::catch_unwind(move || ParsedProgram::from_bytes(&b));
   match r {
@@ -68,9 +69,13 @@ pub fn load_summary(bytes: &[u8]) -> String {
       let consts = p.const_entries.iter().map(|c| format!("{}:{}:{}:{}:{}:{}:{}", c.type_id, c.enc, c.align, c.flags, c.reserved, c.offset, c.length)).collect::<Vec<_>>().join(";");
       let mut syms: Vec<String> = p.symbols.iter().map(|(id, r)| format!("{}:{}:{}", id, if p.mutable_symbols.contains(id) { 1 } else { 0 }, r)).collect(); syms.sort();
       let mut dict: Vec<String> = p.dictionary.iter().map(|(id, n)| format!("{}:{}", id, hexs(n))).collect(); dict.sort();
+      // the loader's part is written out before the constant decoder runs, so that an abort or a hang of
+      // the decoder (seen by the parent process) can be told from one of the loader
+      let head = format!("ok|H={}|F={}|T={}|C={}|B={}|S={}|I={}|D={}|V=", hf, feats, types, consts, hexb(&p.const_blob), syms.join(";"), instr_text(&p.instrs), dict.join(";"));
+      if two_phase { use std::io::Write; print!("{}", head); let _ = std::io::stdout().flush(); }
       let vals = match std::panic::catch_unwind(std::panic::AssertUnwindSafe(|| p.decode_const_entries())) {
         Ok(Ok(vs)) => format!("n{}", vs.len()), Ok(Err(e)) => format!("err:{}", e.kind_name()), Err(pp) => format!("panic:{}", pslug(&pp)) };
-      format!("ok|H={}|F={}|T={}|C={}|B={}|S={}|I={}|D={}|V={}", hf, feats, types, consts, hexb(&p.const_blob), syms.join(";"), instr_text(&p.instrs), dict.join(";"), vals)
+      if two_phase { vals } else { format!("{}{}", head, vals) }
     }
   }
 }
@@ -89,9 +94,16 @@ pub fn load_child(bytes: &[u8]) -> String {
       Ok(Some(st)) => {
         let mut out = String::new();
         if let Some(mut so) = child.stdout.take() { use std::io::Read; let _ = so.read_to_string(&mut out); }
-        return if st.success() { out.trim().to_string() } else { "abort".to_string() };
+        let out = out.trim().to_string();
+        return if st.success() { out } else if out.ends_with("|V=") { format!("{}abort", out) } else { "abort".to_string() };
       }
-      Ok(None) => { if t0.elapsed().as_secs() > 20 { let _ = child.kill(); return "hang".into(); } std::thread::sleep(std::time::Duration::from_millis(2)); }
+      Ok(None) => { if t0.elapsed().as_secs() > 20 {
+          let _ = child.kill(); let _ = child.wait();
+          let mut out = String::new();
+          if let Some(mut so) = child.stdout.take() { use std::io::Read; let _ = so.read_to_string(&mut out); }
+          let out = out.trim().to_string();
+          return if out.ends_with("|V=") { format!("{}hang", out) } else { "hang".into() };
+        } std::thread::sleep(std::time::Duration::from_millis(2)); }
       Err(_) => return "harness:wait".into(),
     }
   }
@@ -180,7 +192,7 @@ pub fn exec(case: &str) -> String {
         Ok(Ok(out)) => if out == file { "same".into() } else { "diff".into() },
       }
     }
-    "load" => load_child(&unhex(f[1])),
+    "load" => load_child(&unhex(f[2])),
     "instrs" => {
       // build a loadable file around the given instruction list, reload it, report the decoded list
       let base = emit("x := 1 + 2").unwrap();
@@ -278,6 +290,51 @@ pub fn generate(seed: u64, thorough: bool, sink: &mut Sink) -> Vec<String> {
   }
   // 4. instruction codec
   for _ in 0..(if thorough { 5000 } else { 400 }) { let t = gen_instrs(&mut rng, sink); cases.push(format!("instrs\t{}", t)); }
+  // 4. the loader on whole files, in a child process: emitted, damaged, and hostile files whose
+  //    checksum has been recomputed
+  let with_crc = |mut body: Vec<u8>| -> Vec<u8> { let c = crc32fast::hash(&body); body.extend_from_slice(&c.to_le_bytes()); body };
+  // header fields: (offset, size)
+  let fields: [(usize, usize); 21] = [(4,1),(5,2),(7,2),(9,4),(13,4),(17,4),(21,8),(29,4),(33,8),(41,4),(45,8),(53,8),(61,8),(69,8),(77,8),(85,8),(93,8),(101,8),(109,8),(117,8),(125,4)];
+  let mut emitted: Vec<Vec<u8>> = PROGRAMS.iter().filter_map(|p| emit(p)).collect();
+  // files with symbols and a dictionary, built with the library's own writer
+  for nsym in [1usize, 11, 12, 13, 30] {
+    if let Some(base) = emit("x := 1 + 2") { if let Ok(mut pp) = ParsedProgram::from_bytes(&base) {
+      for i in 0..nsym { pp.symbols.insert(1000 + i as u64, (i % 3) as u32); if i % 2 == 0 { pp.mutable_symbols.insert(1000 + i as u64); } }
+      pp.dictionary.insert(7, "seven".to_string()); pp.dictionary.insert(8, "häßlich 😀".to_string());
+      let sym_len = 13 * nsym as u64;
+      pp.header.symbols_len = sym_len;
+      pp.header.instr_off = pp.header.symbols_off + sym_len;
+      let dict_len: u64 = pp.dictionary.iter().map(|(_, n)| 12 + n.len() as u64).sum();
+      pp.header.dict_off = pp.header.instr_off + pp.header.instr_len; pp.header.dict_len = dict_len;
+      if let Ok(b) = pp.to_bytes() { emitted.push(b); }
+    } }
+  }
+  for (fi, file) in emitted.iter().enumerate() {
+    cases.push(format!("load\temitted\t{}", hexb(file))); sink.hit("load:emitted");
+    let body = &file[..file.len() - 4];
+    let k = if thorough { 60 } else { 8 };
+    for _ in 0..k {
+      match rng.below(9) {
+        0 => { let mut g = file.clone(); let b = rng.below((g.len() * 8) as u64) as usize; g[b / 8] ^= 1 << (b % 8); cases.push(format!("load\tflip\t{}", hexb(&g))); sink.hit("load:flip"); }
+        1 => { let n = rng.below(file.len() as u64) as usize; cases.push(format!("load\ttruncated\t{}", hexb(&file[..n]))); sink.hit("load:truncated"); }
+        2 | 3 | 4 => { // one header field set to a hostile value, checksum recomputed
+          let (o, sz) = fields[rng.below(21) as usize];
+          let max = if sz == 8 { u64::MAX } else { (1u64 << (8 * sz)) - 1 };
+          let old = { let mut v = 0u64; for i in 0..sz { v |= (body[o + i] as u64) << (8 * i); } v };
+          let v = match rng.below(8) { 0 => 0, 1 => 1, 2 => max, 3 => file.len() as u64, 4 => file.len() as u64 - 4, 5 => old.wrapping_add(1), 6 => old.wrapping_sub(1), _ => rng.next() & max };
+          let mut b = body.to_vec(); for i in 0..sz { b[o + i] = (v >> (8 * i)) as u8; }
+          cases.push(format!("load\thostile-header\t{}", hexb(&with_crc(b)))); sink.hit("load:hostile-header"); }
+        5 | 6 => { // a byte inside the sections changed, checksum recomputed
+          let mut b = body.to_vec(); if b.len() > 130 { let i = 129 + rng.below((b.len() - 129) as u64) as usize; b[i] = match rng.below(3) { 0 => 0xff, 1 => 0, _ => rng.next() as u8 }; }
+          cases.push(format!("load\thostile-section\t{}", hexb(&with_crc(b)))); sink.hit("load:hostile-section"); }
+        7 => { let n = rng.below(body.len() as u64) as usize; cases.push(format!("load\thostile-truncated\t{}", hexb(&with_crc(body[..n].to_vec())))); sink.hit("load:hostile-truncated"); }
+        _ => { let n = rng.below(400) as usize; let b: Vec<u8> = (0..n).map(|_| rng.next() as u8).collect();
+               let b = if rng.chance(1, 2) && n >= 4 { let mut x = b; x[0] = b'M'; x[1] = b'E'; x[2] = b'C'; x[3] = b'H'; x } else { b };
+               cases.push(format!("load\thostile-random\t{}", hexb(&with_crc(b)))); sink.hit("load:hostile-random"); }
+      }
+    }
+    let _ = fi;
+  }
   cases.push("instrs\tR:0".into());
   cases.push("instrs\tC:1:2;R:7".into());
   cases.push("instrs\tR:7;C:1:2".into());
